@@ -257,7 +257,8 @@ def build_mutation(name, arg, rec: Record, rng, recorded):
             raw = reftlv.encode(items)
             return raw[: min(arg, len(raw) - 1)] if len(raw) > 0 else raw
         if kind == "wrong_state":
-            return _replace(items, 6, lambda v: bytes([arg]))
+            # -1: State present but EMPTY; -2: the right number followed by a second byte
+            return _replace(items, 6, lambda v: b"" if arg == -1 else bytes(v) + b"\x00" if arg == -2 else bytes([arg]))
         if kind == "extra_error_ignored":
             return list(items)
         raise KeyError(kind)
@@ -469,7 +470,7 @@ def plan_for(ctx, m2_items):
     plan += [("M2:sig_permuted", i) for i in range(5)] + [("M2:sig_flipped", b) for b in range(0, 512, 37)]
     raw_len = len(reftlv.encode(m2_items))
     plan += [("M2:prefix", n) for n in range(raw_len)] + [("M4:prefix", n) for n in range(3)]
-    plan += [("M2:wrong_state", s) for s in (0, 1, 3, 4, 6, 255)] + [("M4:wrong_state", s) for s in (0, 1, 2, 3, 5, 6)]
+    plan += [("M2:wrong_state", s) for s in (0, 1, 3, 4, 6, 255, -1, -2)] + [("M4:wrong_state", s) for s in (0, 1, 2, 3, 5, 6, -1, -2)]
     return plan
 
 
